@@ -223,8 +223,122 @@ pub fn c06(tier: Tier) -> i32 {
     }
     run_txn(&mut report, "C06", runs);
     metric_matrix(&mut report);
-    report.cov("oracle", "an index built under each of the 7 metrics opens under that metric and fails with UnmatchingDistance under each of the 6 others (49 pairs); after every action of every history over {add, overwrite, append ok/rejected, add with a wrong length, delete present/absent, clear, build, build cancelled at its first poll, commit, abort} on two indexes: Reader::open is Ok / MissingMetadata / NeedBuild exactly as the model's (built, stale) says, need_build() = !built || stale, opening under another metric fails, inside the write transaction and from a fresh read transaction after commit; calls that change nothing leave the raw dump byte-identical");
+    cancelled_then_committed(&mut report, tier);
+    report.cov("oracle", "an index built under each of the 7 metrics opens under that metric and fails with UnmatchingDistance under each of the 6 others (49 pairs); after every action of every history over {add, overwrite, append ok/rejected, add with a wrong length, delete present/absent, clear, build, build cancelled at its first poll, commit, abort} on two indexes: Reader::open is Ok / MissingMetadata / NeedBuild exactly as the model's (built, stale) says, need_build() = !built || stale, opening under another metric fails, inside the write transaction and from a fresh read transaction after commit; calls that change nothing leave the raw dump byte-identical; for every poll position of a build over pending changes (add, overwrite, delete, mixed, near-total deletion; built and never-built index), the build is cancelled there and the transaction committed all the same: the index is still refused and need_build() is true from a fresh read transaction, the built neighbour index is untouched");
     report.finish()
+}
+
+/// A build that fails is not a successful build: for every poll position n of a build over
+/// pending changes, the build is cancelled at n and the transaction is *committed* all the same;
+/// the index must then still be refused (NeedBuild, or MissingMetadata if it was never built) and
+/// need_build() must answer true, from a fresh read transaction — an item changed since the last
+/// successful build. An untouched built neighbour index must stay servable and byte-identical.
+fn cancelled_then_committed(report: &mut Report, tier: Tier) {
+    use crate::common::{arroy_db, sub_dump, Scratch, Violation};
+    use crate::exec::{exec, ErrKind, IndexTypes, Outcome};
+    let metrics: Vec<Metric> = if tier == Tier::Quick { vec![Metric::Euclidean, Metric::DotProduct] } else { M7.to_vec() };
+    let dim = 2usize;
+    let vec_of = |i: u32| -> Vec<u32> { vec![((i % 7) as f32 - 2.5).to_bits(), (((i * 5) % 11) as f32 - 4.0).to_bits()] };
+    // (items built and committed before, pending operations of the faulted transaction)
+    let bases: Vec<(u32, bool)> = if tier == Tier::Quick { vec![(0, false), (9, true)] } else { vec![(0, false), (1, true), (4, true), (9, true), (25, true)] };
+    let pendings: [&str; 5] = ["add", "overwrite", "delete", "add+delete", "delete-all-but-one"];
+    let mut positions = 0u64;
+    let mut refused = 0u64;
+    let mut found: Vec<Violation> = Vec::new();
+    crate::explore::in_single_thread_pool(|| {
+        for metric in &metrics {
+            for (n_base, built) in &bases {
+                for pending in pendings {
+                    if *n_base == 0 && pending != "add" {
+                        continue;
+                    }
+                    let mut n = 0u64;
+                    loop {
+                        let s = Scratch::new("c06c");
+                        let mut types = IndexTypes::new();
+                        types.insert(0, (*metric, dim));
+                        types.insert(1, (*metric, dim));
+                        let mut wtxn = s.env.write_txn().unwrap();
+                        for i in 0..*n_base {
+                            exec(s.db, &mut wtxn, &mut types, &Action::Add { index: 0, id: i, vec: vec_of(i) });
+                        }
+                        for i in 0..4u32 {
+                            exec(s.db, &mut wtxn, &mut types, &Action::Add { index: 1, id: i, vec: vec_of(i + 3) });
+                        }
+                        if *built {
+                            assert!(exec(s.db, &mut wtxn, &mut types, &build(0, Some(2), Some(2), None)).0.is_ok());
+                        }
+                        assert!(exec(s.db, &mut wtxn, &mut types, &build(1, Some(2), Some(2), None)).0.is_ok());
+                        wtxn.commit().unwrap();
+                        let mut wtxn = s.env.write_txn().unwrap();
+                        let ops: Vec<Action> = match pending {
+                            "add" => vec![Action::Add { index: 0, id: 100, vec: vec_of(100) }, Action::Add { index: 0, id: 101, vec: vec_of(101) }, Action::Add { index: 0, id: 102, vec: vec_of(102) }],
+                            "overwrite" => vec![Action::Add { index: 0, id: 0, vec: vec_of(50) }],
+                            "delete" => vec![Action::Del { index: 0, id: 0 }],
+                            "add+delete" => vec![Action::Add { index: 0, id: 100, vec: vec_of(100) }, Action::Del { index: 0, id: n_base - 1 }],
+                            _ => (1..*n_base).map(|id| Action::Del { index: 0, id }).collect(),
+                        };
+                        for op in &ops {
+                            exec(s.db, &mut wtxn, &mut types, op);
+                        }
+                        let neighbour_before = sub_dump(&s.dump(&wtxn), 1);
+                        let (o, _) = exec(s.db, &mut wtxn, &mut types, &build(0, Some(2), Some(2), Some(n)));
+                        let what = format!("{} index of {n_base} items ({}), pending {pending}, build cancelled from poll {n} on, then committed", metric.short(), if *built { "built" } else { "never built" });
+                        match o {
+                            Outcome::Unit => break, // the build never asked again: every position is covered
+                            Outcome::Err(ErrKind::BuildCancelled) => {}
+                            other => {
+                                found.push(Violation::new("SL/cancelled-build-outcome", format!("{what}: the build returned {}", other.describe())));
+                                break;
+                            }
+                        }
+                        wtxn.commit().unwrap();
+                        positions += 1;
+                        let rtxn = s.env.read_txn().unwrap();
+                        let verdict = crate::with_metric!(*metric, D => {
+                            let open = match crate::common::catch(|| arroy::Reader::<D>::open(&rtxn, 0, arroy_db::<D>(s.db)).map(|_| ())) {
+                                Ok(Ok(())) => "Ok".to_string(),
+                                Ok(Err(e)) => ErrKind::of(&e).tag(),
+                                Err(p) => format!("panic {}", p.message),
+                            };
+                            let need = arroy::Writer::<D>::new(arroy_db::<D>(s.db), 0, dim).need_build(&rtxn).map_err(|e| e.to_string());
+                            let neighbour = arroy::Reader::<D>::open(&rtxn, 1, arroy_db::<D>(s.db)).map(|_| ()).map_err(|e| e.to_string());
+                            (open, need, neighbour)
+                        });
+                        let want_open = if *built { "NeedBuild" } else { "MissingMetadata" };
+                        if verdict.0 != want_open {
+                            found.push(Violation::new(
+                                format!("SL/open-after-failed-build:{}", verdict.0),
+                                format!("{what}: Reader::open = {}, expected {want_open} (items changed since the last successful build)", verdict.0),
+                            ));
+                        } else {
+                            refused += 1;
+                        }
+                        if verdict.1 != Ok(true) {
+                            found.push(Violation::new("SL/need-build-after-failed-build", format!("{what}: need_build() = {:?}, expected true", verdict.1)));
+                        }
+                        if verdict.2.is_err() || sub_dump(&s.dump(&rtxn), 1) != neighbour_before {
+                            found.push(Violation::new("SL/neighbour-after-failed-build", format!("{what}: the untouched built neighbour index changed or does not open: {:?}", verdict.2)));
+                        }
+                        drop(rtxn);
+                        if found.len() > 40 {
+                            break;
+                        }
+                        n += 1;
+                    }
+                }
+            }
+        }
+    });
+    // one violation per signature is enough
+    let mut seen = std::collections::BTreeSet::new();
+    for v in found {
+        if seen.insert(v.signature.clone()) {
+            report.add_violation(v);
+        }
+    }
+    report.cov("cancelled_then_committed_positions", positions);
+    report.cov("cancelled_then_committed_refused", refused);
 }
 
 /// Every (built-with, opened-as) pair of the 7 metrics: Ok on the diagonal, UnmatchingDistance elsewhere.
